@@ -172,7 +172,9 @@ def run_check(pid, tier, seed, replay_path=None):
             k = next((k for k in known if k.get("status") == "known" and any(
                 fnmatch.fnmatchcase(ob.oid, pat) for pat in k["obligations"])), None)
             sig = _signature(ob)
-            if k is not None and k.get("signatures") and ob.oid in k["signatures"] and k["signatures"][ob.oid] != sig:
+            if os.environ.get("PYVC_RECORD_SIGNATURES") == pid and k is not None:
+                hits.setdefault(k["id"], []).append(ob)      # maintenance run: re-pin the signatures
+            elif k is not None and k.get("signatures") and ob.oid in k["signatures"] and k["signatures"][ob.oid] != sig:
                 # the recorded witness now fails in a DIFFERENT way: not the listed finding any more
                 ob.note = "behaviour on the recorded witness changed: was %r, now %r" % (k["signatures"][ob.oid][:200], sig[:200])
                 violations.append(ob)
